@@ -162,7 +162,9 @@ impl Drop for Sess {
 // go parameter generation
 // ------------------------------------------------------------------------------------------------
 
-const CLOCK_VALUES: &[&str] = &["0", "-5", "-1000000000000000000", "1", "99", "100", "101", "150", "220", "400", "800", "3000"];
+const CLOCK_VALUES: &[&str] = &["0", "-5", "-1000000000000000000", "1", "99", "100", "101", "150", "220", "400", "800", "3000",
+    // the mover's own clock hopelessly negative: the smallest i128, its neighbours, and an integer below any machine range
+    "-170141183460469231731687303715884105728", "-170141183460469231731687303715884105700", "-999999999999999999999999999999999999999999999"];
 const HUGE: &[&str] = &["100000000", "9007199254740993", "1000000000000000000000000000000", "-1000000000000000000", "0",
     // integers that do not fit any machine integer are still clock values
     "1000000000000000000000000000000000000000000000", "-1000000000000000000000000000000000000000000000", "340282366920938463463374607431768211456"];
@@ -177,7 +179,7 @@ pub fn go_args(rng: &mut Rng, stm: Color, max_plan: u128) -> String {
             fields.push((mine_t.into(), rng.pick(CLOCK_VALUES).to_string()));
         }
         if rng.chance(1, 2) {
-            fields.push((mine_i.into(), rng.pick(&["0", "-5", "1", "50", "100", "150"]).to_string()));
+            fields.push((mine_i.into(), rng.pick(&["0", "-5", "1", "50", "100", "150", "-170141183460469231731687303715884105728", "-999999999999999999999999999999999999999999999"]).to_string()));
         }
         if rng.chance(2, 3) {
             fields.push((their_t.into(), if rng.chance(1, 2) { rng.pick(HUGE).to_string() } else { rng.pick(CLOCK_VALUES).to_string() }));
